@@ -31,11 +31,11 @@ def run(ctx, rep):
                        'create_new in store_config, symmetric serde derives, and Option-without-default for the overriding clap arguments.')
     rep.not_decided = 'ancestor-directory search for typeshare.toml (a loop over the file system) and clap\'s parsing of the command line.'
     rep.trusted = ['syn', 'astq evaluator', 'option→field table from the documentation', 'serde/toml derive semantics', 'clap: Option<T> without default_value is None when the flag is absent']
-    f1(ctx, rep)
-    wiring.backend_wiring(ctx, rep, 'F3')
-    f4(ctx, rep)
-    f5(ctx, rep)
-    f6(ctx, rep)
+    rep.section(f1, ctx, rep)
+    rep.section(wiring.backend_wiring, ctx, rep, 'F3')
+    rep.section(f4, ctx, rep)
+    rep.section(f5, ctx, rep)
+    rep.section(f6, ctx, rep)
 
 
 SETTERS = ('clone_from', 'push_str', 'insert_str', 'replace_range', 'clear', 'truncate', 'extend', 'push', 'insert', 'remove', 'retain', 'clone_into')
